@@ -342,6 +342,29 @@ def run_history(c, case):
         if not obs["solutions"] or any(s is None for s in obs["solutions"]):
             continue
         fp_all = sim_fingerprint(m)
+        # variant k reached through the public variant access routes: indexing m[k] and iteration list(m)
+        try:
+            by_index = [m[k] for k in range(m.num_variants)]
+            by_iter = list(m)
+        except Exception as exc:
+            vio(f"variant-law:variant-access-raised:{type(exc).__name__}", f"{type(exc).__name__}: {str(exc)[:160]}")
+            return
+        for route, els in (("index", by_index), ("iteration", by_iter)):
+            if len(els) != m.num_variants:
+                vio(f"variant-law:{route}:wrong-number-of-variants", f"{len(els)} elements for {m.num_variants} variants")
+                return
+            for k, el in enumerate(els):
+                eo = observe(el)
+                c.event("variant-law", f"access:{route}", key=("access", route, m.num_variants), nontrivial=True)
+                for part in ("params", "stds", "levels", "changes"):
+                    want = {n: [v[k]] for n, v in obs[part].items()}
+                    ok, why = same(eo[part], want)
+                    if not ok:
+                        vio(f"variant-law:{route}:element-is-not-variant-k", f"element {k} obtained by {route} of a {m.num_variants}-variant model: {part}: {why}")
+                        return
+                if not same(eo["solutions"], [obs["solutions"][k]])[0]:
+                    vio(f"variant-law:{route}:element-has-another-variants-solution", f"element {k} obtained by {route}")
+                    return
         for k in range(m.num_variants):
             try:
                 single = _fresh(case, [])
